@@ -369,6 +369,13 @@ def nb_cases(chk, tier):
             out.append({'base': b, 'local': l, 'remote': rr, 'scenario': 'gennb'})
     except Exception as e:
         chk.notes.append('harness/gennb.gen_triple not usable: %r' % (e,))
+    # concurrent multi-cell insert runs at one position: dissimilar blocks of every size pair 0..3 x 0..3 before a similar
+    # pair (systematic), plus random segment sequences; own stream, drawn last so that the cases above do not move
+    import random
+    r3 = random.Random(r.getrandbits(32))
+    for segs in G.insert_run_specs(r3, 24 if tier == 'quick' else 600):
+        b, l, rr, s = G.gen_insert_runs(r3, segs)
+        out.append({'base': b, 'local': l, 'remote': rr, 'scenario': s})
     return out
 
 # ------------------------------------------------------------------ shrinking (cheap): drop cells common to all three
@@ -545,7 +552,7 @@ def _run(chk, tier, sb):
     chk.cov.update({
         'evaluations': nb_eval + len(seen),
         'distinct_nontrivial': len(nontrivial) + sum(1 for (b_, l, r_, cfg) in seen if l != r_),
-        'rule': 'notebook triples (per scenario of harness/c07_gen.py, 3 tool configurations each) counted non-trivial when the merge has a conflicted decision or called merge_render, distinct by sha1 of the triple + configuration; text triples (exhaustive <=2 lines over {a,b,c} with/without final newline, random edits incl. CR/FF/U+2028 terminators and marker-like lines, position-wise clashes) counted when local != remote, distinct by (b,l,r,configuration)',
+        'rule': 'notebook triples (per scenario of harness/c07_gen.py incl. concurrent multi-cell insert runs insert_runs:*, 3 tool configurations each) counted non-trivial when the merge has a conflicted decision or called merge_render, distinct by sha1 of the triple + configuration; text triples (exhaustive <=2 lines over {a,b,c} with/without final newline, random edits incl. CR/FF/U+2028 terminators and marker-like lines, position-wise clashes) counted when local != remote, distinct by (b,l,r,configuration)',
         'input_distribution': hist, 'traces_validated_against_impl': t1, 'model_impl_mismatches': mism,
         'tool_calls_contract_checked': ncalls, 'merge_errors_not_judged_here': merge_errors,
         'notebook_merges_judged': nb_eval, 'exhaustive': False,
